@@ -2,6 +2,27 @@
 over the shards; budgets are case counts, never time."""
 
 PROPS = {
+    "C12": {
+        "pkg": "c12", "needs_gw": False, "level": "exploration",
+        "technique": "property-based testing (rapid) + native coverage-guided fuzzing of the exported chunk readers: round trip under generated fragmentation / buffer sizes, field-classified mutants and truncations must be rejected",
+        "level_text": ("Generated-input search on the real readers (utils.NewSignedChunkReader / NewUnsignedChunkReader): payload x chunking x "
+                       "3 flavours x 5 checksum algorithms x fragmentation of the encoded stream (incl. cuts aimed inside headers, CRLFs and "
+                       "trailers) x destination buffer sequences; metamorphic oracle (decoded bytes == payload, terminal io.EOF, independent of "
+                       "fragmentation) and negative oracle by field class (xor of any byte, truncation anywhere, hostile size fields, dropped "
+                       "or exchanged chunks; no panic, no allocation sized by the input). The encoder is the harness' own, validated against "
+                       "the worked examples of the AWS SigV4 streaming documentation."),
+        "level_note": "reader level (layer A); the end-to-end share (real PUTs with fragmented chunked bodies) lives in C01/C06. Exploration only.",
+        "rule": ("cases = (mode, algo, payload length, chunk sizes, fragments, buffers, eof-with-data, negative kind). Non-trivial: valid stream "
+                 "with a read boundary inside a chunk header/trailer, or a mutant of a verified field (data, chunk signature, checksum, "
+                 "trailer signature), truncation, hostile size, dropped/exchanged chunk; distinct by the full tuple."),
+        "assumptions": ["fixed signing key/date/seed signature (the readers take them as parameters)",
+                        "extra bytes after the final chunk are invisible at reader level (covered end to end by C06)"],
+        "jobs": [
+            {"run": "TestC12Valid", "quick": 160000, "thorough": 5000000, "shards_quick": 8, "shards_thorough": 16},
+            {"run": "TestC12Negative", "quick": 160000, "thorough": 5000000, "shards_quick": 8, "shards_thorough": 16},
+        ],
+        "fuzz": [{"target": "FuzzC12", "seconds": 600}],
+    },
     "C13": {
         "pkg": "c13", "needs_gw": False, "level": "exploration",
         "technique": "property-based testing (rapid): grammar-generated Range headers against an RFC 7233 reference model, parser-level and end-to-end",
